@@ -621,10 +621,9 @@ class J1939_22:
             buffer_hash   = self._buffer_hash(session_num, src_address, dest_address)
             if buffer_hash in self._rcv_buffer:
                 # buffer already in use
+                # the originator announces a new message on this session: drop the unfinished one
                 logger.info('bam receive buffer already in use 0x%x', buffer_hash )
                 del self._rcv_buffer[buffer_hash]
-                self.__put_bam_session(self._rcv_buffer['session'])
-                return
 
             # init new buffer for this connection
             self._rcv_buffer[buffer_hash] = {
